@@ -188,3 +188,23 @@ CALLABLES = {
     'classmethod': Holder.cmethod,
     'partial': PARTIAL,
 }
+
+
+# ------------------------------------------------------------------------------------------
+# Classes with object-valued and container-valued DEFAULTS, nested two levels deep: histories
+# "serialise, mutate below the top, serialise again" (memoised derived state between the two).
+# ------------------------------------------------------------------------------------------
+
+class W(pg.Object):
+  inner: pg.typing.Object(P, default=P(x=1, y='a'))
+  tags: pg.typing.List(pg.typing.Any(), default=[])
+  n: pg.typing.Int(default=0)
+
+
+class W2(pg.Object):
+  w: pg.typing.Object(W, default=W())
+  k: pg.typing.Str(default='k')
+  extra: pg.typing.Dict(default={})
+
+
+CLASSES.update(W=W, W2=W2)
